@@ -349,6 +349,22 @@ def part_directions(job):
             if pl.shape != (4, 2) or not np.allclose(pl, expp, rtol=1e-6, atol=0):
                 p.violation('list:projection_pair_list', 'projection_pair_list of h=%r v=%r is %r, expected %r'
                             % (h, grp, pl, expp), rp)
+            # the same list object asked again after its content was changed in place (same length): the helpers
+            # describe what the list holds now
+            lst[0] = LighthouseBsVector(h, grp[3])
+            lst.reverse()
+            grp2 = [grp[3], grp[2], grp[1], grp[3]]
+            al2 = np.asarray(lst.angle_list(), dtype=float)
+            pl2 = np.asarray(lst.projection_pair_list(), dtype=float)
+            exp2 = np.array([c for v in grp2 for c in (h, v)])
+            expp2 = np.array([[np.float32(math.tan(h)), np.float32(math.tan(v))] for v in grp2], dtype=float)
+            p.case(key=('list2', h, i), outcome='list_again')
+            if al2.shape != (8,) or not np.array_equal(al2, exp2):
+                p.violation('list:angle_list:after_in_place_change', 'angle_list after replacing/reversing elements is %r, '
+                            'expected %r' % (al2, exp2), rp)
+            if pl2.shape != (4, 2) or not np.allclose(pl2, expp2, rtol=1e-6, atol=0):
+                p.violation('list:projection_pair_list:after_in_place_change', 'projection_pair_list after replacing/'
+                            'reversing elements is %r, expected %r' % (pl2, expp2), rp)
     return p
 
 
